@@ -173,3 +173,10 @@ func eachInstr(fn *ssa.Function, f func(ssa.Instruction)) {
 		}
 	}
 }
+
+func constantToInt64(v constant.Value) (int64, bool) {
+	if v == nil || v.Kind() != constant.Int {
+		return 0, false
+	}
+	return constant.Int64Val(v)
+}
